@@ -5,7 +5,7 @@ open SaVerif.Drv SaVerif.History
 
 /-!
 `history scalar <isObj 0|1> <init> <ops>`   init: `F` (new object) | `L:<v>` (loaded, v = `N` or int)
-    ops: set:v  del  exp  load  flush
+    ops: set:v  del  exp  load  lo (read of another expired column)  flush
 `history coll <init> <ops>`                 init: `F` | `L:<list>` (ints by `.`, `-` = empty)
     ops: app:x  rem:x  rep:list  del  touch  exp  flush
 response per op: `cur~cs~added/unchanged/deleted~db`, ops joined by `|`;
@@ -32,6 +32,8 @@ def parseSOp? (s : String) : Option Scalar.Op :=
   | ["del"] => some .del
   | ["exp"] => some .expire
   | ["load"] => some .load
+  | ["lo"] => some .loadOther
+  | ["expall"] => some .expireAll
   | ["flush"] => some .flush
   | _ => none
 
